@@ -203,7 +203,7 @@ class NegInstruction(MichelsonInstruction, prim='NEG'):
             },
         )
         if issubclass(res_type, IntType):
-            res = IntType.from_value(-int(a))  # type: ignore
+            res = res_type.from_value(-int(a))  # type: ignore
         else:
             res = res_type.from_point(bls12_381.neg(a.to_point()))  # type: ignore
         stack.push(res)
